@@ -76,6 +76,17 @@ fn oracle_delta(m: &AbsModel, entries: &[(String, Vec<i32>, String)], text: &str
         fails.push(("C19".into(), "the model after replace_dictionary cannot be decoded".into()));
         return;
     };
+    // the public accessors show exactly the records handed to replace_dictionary, in order, and the tag models untouched
+    let seen: Vec<(String, Vec<i32>, String)> =
+        new_model.dictionary().iter().map(|r| (r.get_word().to_string(), r.get_weights().to_vec(), r.get_comment().to_string())).collect();
+    if seen != entries {
+        fails.push(("C19".into(), format!("Model::dictionary() shows {seen:?} after replace_dictionary({entries:?})")));
+    }
+    let toks: Vec<String> = new_model.tag_models().iter().map(|t| t.token().to_string()).collect();
+    let want: Vec<String> = m.tag_models.iter().map(|t| t.token.clone()).collect();
+    if toks != want {
+        fails.push(("C19".into(), format!("Model::tag_models() lists the tokens {toks:?} after replace_dictionary, the model has {want:?}")));
+    }
     let mut expect = m.clone();
     expect.dict = entries.to_vec();
     if after.to_text() != expect.to_text() {
